@@ -380,3 +380,65 @@ def g_rot(s, hx, slot, after, age):
             and s._blooms[n - 1]._els_added >= 1
             and all(len(s._blooms[q]._bloom) >= 0 and s._blooms[q]._els_added == eb_est(s) for q in range(slot, n - 1))
             and age == (after if slot == n - 1 else after + (n - 2 - slot) * eb_est(s) + s._blooms[n - 1]._els_added))
+
+
+# ---- cuckoo filters ----------------------------------------------------------------------------------------------
+def tcount(buckets, n, f):
+    """occurrences of f in the first n buckets"""
+    return sum(list(b).count(f) for b in buckets[:max(n, 0)])
+
+
+def tsize(buckets, n):
+    """number of stored entries in the first n buckets"""
+    return sum(len(b) for b in buckets[:max(n, 0)])
+
+
+def lcount(lst, lo, hi, f):
+    """occurrences of f in lst[lo:hi]"""
+    return list(lst[lo:hi]).count(f) if hi > lo else 0
+
+
+def ck_cap(s):
+    return s._cuckoo_capacity
+
+
+def ck_alt(s, fp):
+    """the second candidate bucket of a fingerprint: hash of its decimal text, modulo the capacity"""
+    return s._CuckooFilter__hash_func(str(fp)) % s._cuckoo_capacity
+
+
+def inv_cuckoo(s):
+    """well-formed bucket table: capacity buckets of at most bucket_size fingerprints, every fingerprint in one of
+    its two candidate buckets, no fingerprint stored twice, counter = number of stored fingerprints"""
+    return (s._cuckoo_capacity >= 1 and s._bucket_size >= 1 and len(s._buckets) == s._cuckoo_capacity
+            and all(0 <= len(s._buckets[b]) <= s._bucket_size for b in range(0, s._cuckoo_capacity))
+            and all(all(b == s._buckets[b][j] % s._cuckoo_capacity or b == ck_alt(s, s._buckets[b][j])
+                        for j in range(0, len(s._buckets[b]))) for b in range(0, s._cuckoo_capacity))
+            and nodup(s._buckets, s._cuckoo_capacity)
+            and s._inserted_elements == tsize(s._buckets, s._cuckoo_capacity))
+
+
+def nodup(buckets, n):
+    """no value is stored twice in the first n buckets (symbolically: for every f, tcount(buckets, n, f) <= 1)"""
+    flat = [x for b in buckets[:max(n, 0)] for x in b]
+    return len(flat) == len(set(flat))
+
+
+def present(s, fp):
+    """fingerprint fp is stored somewhere in the table"""
+    return tcount(s._buckets, s._cuckoo_capacity, fp) >= 1
+
+
+def ck_shape(s):
+    return (s._cuckoo_capacity >= 1 and s._bucket_size >= 1 and len(s._buckets) == s._cuckoo_capacity
+            and all(0 <= len(s._buckets[b]) <= s._bucket_size for b in range(0, s._cuckoo_capacity)))
+
+
+def ck_placed(s):
+    return all(all(b == s._buckets[b][j] % s._cuckoo_capacity or b == ck_alt(s, s._buckets[b][j])
+                   for j in range(0, len(s._buckets[b]))) for b in range(0, s._cuckoo_capacity))
+
+
+def same(a, b):
+    """identical values (lists compared element-wise; symbolically: identical cell arrays)"""
+    return list(a) == list(b) if hasattr(a, "__len__") else a == b
